@@ -749,6 +749,10 @@ impl JSON {
                     let mut _parsed_float = "0.0".to_string();
                     if raw_value != 0.0 {
                         _parsed_float = raw_value.to_string();
+                        if raw_value.is_finite() && !_parsed_float.contains('.') {
+                            // keep the decimal point, as for zero: "1" would be read back as an integer
+                            _parsed_float = format!("{}.0", _parsed_float);
+                        }
                     }
                     let formatted_property = format!("  \"{}\": {}", &property.property_name, _parsed_float);
                     properties_list.push(formatted_property.to_string());
